@@ -16,7 +16,7 @@ from spec_classes.types import EMPTY, MISSING, UNCHANGED, Attr
 from .type_checking import check_type, type_label
 
 
-def protect_via_deepcopy(obj: Any, memo: Any = None) -> Any:
+def protect_via_deepcopy(obj: Any, memo: Any = None, *, for_mutation: bool = False) -> Any:
     """
     Protect the incoming `obj` from subsequent mutations by returning an
     identical copy of that object.
@@ -24,6 +24,8 @@ def protect_via_deepcopy(obj: Any, memo: Any = None) -> Any:
     Args:
         obj: The object to protect.
         memo: An (optional) memo object to pass down through `copy.deepcopy`.
+        for_mutation: Whether the copy is going to be mutated (in which case
+            frozen spec-class instances are duplicated too).
 
     Returns:
         A mutate-safe copy of the incoming object.
@@ -40,7 +42,39 @@ def protect_via_deepcopy(obj: Any, memo: Any = None) -> Any:
     if isinstance(obj, (bool, int, float, str, bytes, type, ModuleType)):
         return obj
     with _modules_copyable():
+        if for_mutation and _is_frozen_spec_instance(obj):
+            # Frozen instances are shared rather than duplicated when they are
+            # merely contained in something being copied; a copy that is about
+            # to be mutated (copy-on-write) has to be a new instance.
+            return obj.__deepcopy__({} if memo is None else memo, force=True)
         return copy.deepcopy(obj, memo)
+
+
+def _is_frozen_spec_instance(obj: Any) -> bool:
+    metadata = getattr(obj, "__spec_class__", None)
+    return bool(
+        metadata
+        and not isinstance(obj, type)
+        and getattr(metadata, "frozen", False)
+        and not getattr(metadata, "do_not_copy", False)
+    )
+
+
+@contextlib.contextmanager
+def thawed(obj: Any, enable: bool = True):
+    """
+    Temporarily allow mutation of `obj` if it is an instance of a frozen spec
+    class. Only ever used on copies that have just been made for a
+    copy-on-write mutation (never on the instance the user holds).
+    """
+    if not (enable and _is_frozen_spec_instance(obj)):
+        yield
+        return
+    obj.__dict__["__spec_class_initializing__"] = True
+    try:
+        yield
+    finally:
+        obj.__dict__.pop("__spec_class_initializing__", None)
 
 
 class _modules_copyable:
@@ -127,7 +161,11 @@ def mutate_attr(
     # If not inplace, copy before writing new value for attribute
     if not (inplace or metadata and metadata.do_not_copy):
         original = obj
-        obj = copy.deepcopy(obj)
+        obj = (
+            protect_via_deepcopy(obj, for_mutation=True)
+            if _is_frozen_spec_instance(obj)
+            else copy.deepcopy(obj)
+        )
         if (
             value is getattr(original, "__dict__", {}).get(attr, MISSING)
             and attr in getattr(obj, "__dict__", {})
@@ -157,7 +195,8 @@ def mutate_attr(
 
     # Invalidate any caches depending on this attribute
     if not skip_invalidation and metadata and metadata.invalidation_map:
-        invalidate_attrs(obj, attr, metadata.invalidation_map)
+        with thawed(obj, enable=not inplace):
+            invalidate_attrs(obj, attr, metadata.invalidation_map)
 
     return obj
 
@@ -294,11 +333,12 @@ def mutate_value(
             value = constructor()
 
     # If there are any left-over attributes to apply to our value, we do so here.
+    thaw = False  # Whether `value` is a copy of a frozen instance made here.
     if value is not None and value is not MISSING and attrs:
         if not mutate_safe:
-            value = protect_via_deepcopy(value)
-            mutate_safe = True
-        with _rollback_on_error(value):
+            value = protect_via_deepcopy(value, for_mutation=True)
+            mutate_safe = thaw = True
+        with _rollback_on_error(value), thawed(value, enable=thaw):
             for attr, attr_value in attrs.items():
                 if attr in used_attrs:
                     continue
@@ -314,8 +354,9 @@ def mutate_value(
     # If `attr_transforms` is provided, transform attributes
     if attr_transforms:
         if not mutate_safe:
-            value = protect_via_deepcopy(value)
-        with _rollback_on_error(value):
+            value = protect_via_deepcopy(value, for_mutation=True)
+            thaw = True
+        with _rollback_on_error(value), thawed(value, enable=thaw):
             for attr, attr_transform in attr_transforms.items():
                 transformed_value = attr_transform(getattr(value, attr, MISSING))
                 if transformed_value is not MISSING:
